@@ -143,6 +143,26 @@ def install(ex):
     def _fabs2(ex, st, args, ins, name):
         return ex.dom.abs(args[0])
 
+    def _fminmax(kind):
+        def h(ex, st, args, ins, name):
+            a, b = args
+            for v in (a, b):
+                if v is X.UNDEF:
+                    raise X.PathError('uninit', '%s on uninitialised value' % name)
+            isnan = lambda v: isinstance(v, float) and v != v
+            if isnan(a):          # IEEE maxNum/minNum: a quiet NaN operand is ignored
+                return b
+            if isnan(b):
+                return a
+            c = T.fcmp('ogt' if kind == 'max' else 'olt', a, b)
+            if isinstance(c, Term):
+                return T.ite(c, a, b, 'R')
+            return a if c else b
+        return h
+
+    for nm_, kd_ in (('llvm.maxnum.f64', 'max'), ('llvm.minnum.f64', 'min'), ('fmax', 'max'), ('fmin', 'min')):
+        I[nm_] = _fminmax(kd_)
+
     def _mk_libm(fname):
         def h(ex, st, args, ins, name):
             for a in args:
